@@ -269,12 +269,17 @@ def update_connectivity(
     elif primary_dimension not in connectivity.dims:
         raise ValueError("Connectivity variable does not contain primary dimension")
 
+    # A dataset opened with mask_and_scale=False keeps _FillValue as an attribute.
+    # The new variable records its fill value in the encoding instead,
+    # xarray refuses to save a variable that has both.
+    attrs = {key: value for key, value in connectivity.attrs.items() if key != '_FillValue'}
+
     return _masked_integer_data_array(
         data=values,
         fill_value=fill_value,
         dims=connectivity.dims,
         name=connectivity.name,
-        attrs=connectivity.attrs,
+        attrs=attrs,
     )
 
 
